@@ -20,6 +20,7 @@ import (
 	"hash/fnv"
 	"io"
 	"log"
+	"math/rand/v2"
 	"net"
 	"net/http"
 	"runtime/debug"
@@ -41,6 +42,8 @@ const (
 	vsrvGrpState               // C15: stream states, handler bound, PING/SETTINGS answers, malformed requests
 	vsrvGrpSurvive             // C16: no panic, no wedged connection, bounded queues
 )
+
+func vsrvPick[T any](rng *rand.Rand, xs ...T) T { return xs[rng.IntN(len(xs))] }
 
 // ---------------------------------------------------------------------------------------
 // tiny HPACK helpers (RFC 7541), written from the RFC; only what the scripted client needs
@@ -227,7 +230,7 @@ type vsrvSnap struct {
 }
 
 type vsrvOp struct {
-	Kind byte // 'w' Write(N bytes), 'f' Flush, 'p' park until released, 'r' read request body, 'h' WriteHeader(N)
+	Kind byte // 'w' Write(N bytes), 'f' Flush, 'p' park until released or cancelled, 'P' park until released, 'r' read request body, 'h' WriteHeader(N)
 	N    int
 }
 
@@ -317,6 +320,7 @@ type vsrvSession struct {
 	hRunning   int
 	hMax       int
 	hStarts    int
+	hRetSince  int // handler returns since the last evaluated quiescent point
 	panics     []string
 	expectGone bool // script sent something after which the server may legitimately hang up
 
@@ -542,6 +546,18 @@ func (s *vsrvSession) drain(n int) {
 		n = s.s2cLen
 	}
 	s.s2cLen -= n
+	s.cond.Broadcast()
+	s.mu.Unlock()
+}
+
+// setCap changes the capacity of the server→client pipe (<=0: unlimited, which also lets
+// every blocked server write through).
+func (s *vsrvSession) setCap(n int) {
+	s.mu.Lock()
+	s.cfg.S2CCap = n
+	if n <= 0 {
+		s.s2cLen = 0
+	}
 	s.cond.Broadcast()
 	s.mu.Unlock()
 }
@@ -1089,6 +1105,7 @@ func (s *vsrvSession) hEvent(id uint32, what string, n int, err error) {
 		st.hReturned = true
 		st.hInCall = ""
 		s.hRunning--
+		s.hRetSince++
 		s.tr("H  return s=%d", id)
 	case "write", "flush", "park", "read":
 		st.hInCall = what
@@ -1155,6 +1172,10 @@ func (s *vsrvSession) serveHTTP(w http.ResponseWriter, r *http.Request) {
 				s.hEvent(id, "done", 0, nil)
 				return
 			}
+		case 'P': // park that ignores cancellation of the request (only the script releases it)
+			s.hEvent(id, "park", 0, nil)
+			<-plan.release
+			s.hEvent(id, "done", 0, nil)
 		case 'r':
 			s.hEvent(id, "read", 0, nil)
 			io.Copy(io.Discard, r.Body)
@@ -1184,6 +1205,7 @@ func (s *vsrvSession) settle() {
 		return
 	}
 	// the serve loop has consumed everything the client sent
+	s.hRetSince = 0
 	for _, id := range s.order {
 		st := s.streams[id]
 		if st.cliRST && !st.cliRSTEffective {
